@@ -350,7 +350,11 @@ def main():
         return 2
     meta = P.PROPS[pid]
     t0 = time.time()
-    ev_path = os.path.join(V, 'evidence', '%s.json' % pid)
+    # evidence and replay files describe /repo.  A run against another tree (VERIF_REPO: seeded-change trials, benign
+    # refactorings) writes them under .cache/alt-out instead, so that a trial can never leave a mutant's record
+    # in /verif/evidence (that happened once: DESIGN.md section 11)
+    OUT = V if os.path.realpath(REPO) == '/repo' else os.path.join(CACHE, 'alt-out', os.path.basename(os.path.normpath(REPO)))
+    ev_path = os.path.join(OUT, 'evidence', '%s.json' % pid)
     if os.path.exists(ev_path):
         os.remove(ev_path)
 
@@ -546,6 +550,26 @@ def main():
                     fq = '%s::%s' % (o.get('file') or o['name'].split('::')[0], fnn)
                     if o['backend'] == 'verus' and twin_of(fq) == h['name'] and txt:
                         kres.setdefault('counterexamples', {})[o['name']] = 'Kani twin harness on the same real function:\n' + txt
+    # failed Verus obligations of the DHKEM bodies: look for a concrete failing input natively (kat/auth_kat.rs recomputes the
+    # RFC 9180 section 4.1 shared secret of Encap/AuthEncap/Decap/AuthDecap from the crate's own DH and ExtractAndExpand).
+    # Only ever run after an obligation has failed: it can attach an input to a violation, it cannot create or remove one.
+    dh_failed = [o for o in failed if o['backend'] == 'verus' and ('encap_with_eph' in o['name'] or 'decap_body' in o['name'])]
+    if dh_failed and not os.environ.get('VERIF_SKIP_KANI'):
+        import kat_run
+        try:
+            ak = kat_run.run_auth()
+        except Exception as e:
+            ak = {'failed_natively': False, 'output': repr(e)}
+        if ak.get('failed_natively'):
+            for o in dh_failed:
+                # attach the input only to the function the native run actually shows deviating
+                if ('MISMATCH encap_with_eph' if 'encap_with_eph' in o['name'] else 'MISMATCH decap_body') not in ak['output']:
+                    continue
+                prev = kres.get('counterexamples', {}).get(o['name'])
+                kres.setdefault('counterexamples', {})[o['name']] = (
+                    'FAILS natively (failing input: DHKEM(X25519, HKDF-SHA256) / DHKEM(P-256, HKDF-SHA256) with the key pairs '
+                    'derive_keypair(b"verif kat recipient ikm" / b"verif kat sender ikm" / b"verif kat ephemeral ikm"), kat/auth_kat.rs; '
+                    'rerun: python3 tools/kat_run.py auth):\n' + ak['output'] + ('\n\n' + prev if prev else ''))
     # a definite violation from any back end is reported even when another back end is undecided
     if not failed:
         if verus_undecided:
@@ -603,9 +627,9 @@ def main():
     json.dump(ev, open(ev_path, 'w'), indent=1)
 
     if reported:
-        os.makedirs(os.path.join(V, 'replays'), exist_ok=True)
+        os.makedirs(os.path.join(OUT, 'replays'), exist_ok=True)
         for i, o in enumerate(reported):
-            rp = os.path.join(V, 'replays', '%s_%d.txt' % (pid, i))
+            rp = os.path.join(OUT, 'replays', '%s_%d.txt' % (pid, i))
             cex = kres.get('counterexamples', {}).get(o['name'])
             native = bool(cex) and ('FAILS natively' in cex or o['backend'] == 'rustc trait solver')
             with open(rp, 'w') as fh:
